@@ -4,7 +4,13 @@ From NV Require Import Common.Py Spec.TimingSpec Model.Timing Model.Waveform Spe
 Open Scope Z_scope.
 
 Record wobs := { w_pre : pool; w_op : wop; w_res : res wout; w_warn : list warning; w_post : pool }.
-Inductive wfmcase := WHist (steps : list wobs).
+Inductive wfmcase :=
+| WHist (steps : list wobs)
+(* a scenario outside the pool model (e.g. a read-only borrowed buffer): invariant observations made by the harness *)
+| WObs (flags : list bool).
 
 Definition wfm_spec_ok (c : wfmcase) : bool :=
-  match c with WHist steps => forallb (fun s => spec_step_ok (w_pre s) (w_op s) (w_res s) (w_warn s) (w_post s)) steps end.
+  match c with
+  | WHist steps => forallb (fun s => spec_step_ok (w_pre s) (w_op s) (w_res s) (w_warn s) (w_post s)) steps
+  | WObs flags => forallb (fun b => b) flags
+  end.
